@@ -6,6 +6,11 @@
 #include <time.h>
 
 #include <ctype.h>
+#include <dirent.h>
+#include <fcntl.h>
+#include <stdarg.h>
+#include <stdlib.h>
+#include <sys/stat.h>
 #include <errno.h>
 #include <execinfo.h>
 #include <malloc.h>
@@ -333,6 +338,8 @@ void fs_reset() {
   fs.seek_fail_open_index = -1;
   fs.chunk = 4096;
   fs.opens.clear();
+  fs.other_api.clear();
+  fs.unsupported_api.clear();
   fs.open_count = 0;
   fs.cookie_reads = 0;
 }
@@ -342,6 +349,7 @@ const FsNode* fs_resolve(const std::string& path, int* err) {
   // Normalise: collapse repeated slashes and "." components, resolve ".." against directories that
   // exist; remember whether the path demands a directory (trailing "/" or "/.").
   if (path.size() >= 4096) { *err = ENAMETOOLONG; return nullptr; }
+  if (path.compare(0, 9, "/sim/cwd/") == 0) return fs_resolve(path.substr(9), err);   // the simulated working directory (getcwd/realpath)
   std::string p;
   bool trailing = path.size() > 1 && path.back() == '/';
   size_t i = 0;
@@ -524,6 +532,141 @@ time_t time(time_t* out) noexcept {
   else { struct timespec ts; real_clock_gettime(CLOCK_REALTIME, &ts); v = ts.tv_sec; }
   if (out) *out = v;
   return v;
+}
+
+// File-system entry points other than fopen.  cctz uses none of them; a change that starts to consult one would
+// otherwise look at the REAL file system of this machine while fopen looks at the simulated one.  stat/lstat/access/
+// realpath/readlink/getcwd are served from the simulated tree; open/openat/opendir cannot be (the rest of the descriptor
+// API is not simulated), so their use inside library code makes the run a machinery fault instead of a wrong verdict.
+static const sim::FsNode* fs_lookup_for_stat(const char* path, int* err) {
+  using namespace sim;
+  const FsNode* n = fs_resolve(path ? path : "", err);
+  if (!n && *err == EACCES) {   // an unreadable node still exists for stat()
+    std::string p = path;
+    while (p.size() > 1 && p.back() == '/') p.pop_back();
+    auto it = fs.nodes.find(p);
+    if (it != fs.nodes.end()) { *err = 0; return &it->second; }
+  }
+  return n;
+}
+static void note_api(const char* what, const char* path) { sim::HarnessScope hs; sim::fs.other_api.push_back(std::string(what) + "(" + (path ? path : "") + ")"); sim::probe("library_used_file_api_other_than_fopen"); }
+int __real_stat(const char* path, struct stat* st);
+int __wrap_stat(const char* path, struct stat* st) {
+  using namespace sim;
+  if (g_premain.active) {
+    bool dir = false;
+    if (!premain_exists(path, &dir)) { errno = ENOENT; return -1; }
+    memset(st, 0, sizeof *st);
+    st->st_mode = dir ? (S_IFDIR | 0755) : (S_IFREG | 0644); st->st_size = dir ? 4096 : 60; st->st_nlink = 1;
+    return 0;
+  }
+  if (!fs.active || !in_library_scope()) return __real_stat(path, st);
+  note_api("stat", path);
+  int err = 0;
+  const FsNode* n = fs_lookup_for_stat(path, &err);
+  if (!n) { errno = err; return -1; }
+  memset(st, 0, sizeof *st);
+  st->st_mode = n->kind == FsNode::DIR ? (S_IFDIR | 0755) : n->kind == FsNode::FIFO ? (S_IFIFO | 0644) : n->kind == FsNode::NOPERM ? (S_IFREG | 0000) : (S_IFREG | 0644);
+  st->st_size = static_cast<off_t>(n->bytes.size());
+  st->st_nlink = 1; st->st_uid = 1000; st->st_gid = 1000; st->st_mtime = 1600000000; st->st_blksize = 4096;
+  return 0;
+}
+int __real_lstat(const char* path, struct stat* st);
+int __wrap_lstat(const char* path, struct stat* st) {
+  if (sim::g_premain.active) return __wrap_stat(path, st);
+  if (!sim::fs.active || !sim::in_library_scope()) return __real_lstat(path, st);
+  return __wrap_stat(path, st);   // (the simulated tree has no symbolic links)
+}
+int __real_access(const char* path, int mode);
+int __wrap_access(const char* path, int mode) {
+  using namespace sim;
+  if (g_premain.active) { bool dir = false; if (premain_exists(path, &dir) && !(mode & W_OK)) return 0; errno = ENOENT; return -1; }
+  if (!fs.active || !in_library_scope()) return __real_access(path, mode);
+  note_api("access", path);
+  int err = 0;
+  const FsNode* n = fs_lookup_for_stat(path, &err);
+  if (!n) { errno = err; return -1; }
+  if (n->kind == FsNode::NOPERM && (mode & (R_OK | W_OK | X_OK))) { errno = EACCES; return -1; }
+  if ((mode & W_OK) || ((mode & X_OK) && n->kind != FsNode::DIR)) { errno = EACCES; return -1; }
+  return 0;
+}
+char* __real_realpath(const char* path, char* resolved);
+char* __wrap_realpath(const char* path, char* resolved) {
+  using namespace sim;
+  if (g_premain.active) {
+    bool dir = false;
+    if (!premain_exists(path, &dir)) { errno = ENOENT; return nullptr; }
+    size_t n = strlen(path);
+    while (n > 1 && path[n - 1] == '/') --n;
+    if (!resolved) resolved = static_cast<char*>(malloc(n + 1));
+    memcpy(resolved, path, n); resolved[n] = '\0';
+    return resolved;
+  }
+  if (!fs.active || !in_library_scope()) return __real_realpath(path, resolved);
+  note_api("realpath", path);
+  int err = 0;
+  const FsNode* n = fs_lookup_for_stat(path, &err);
+  if (!n) { errno = err; return nullptr; }
+  std::string found;
+  for (auto& kv : fs.nodes) if (&kv.second == n) found = kv.first;
+  if (found.empty() || found[0] != '/') found = "/sim/cwd/" + found;
+  if (!resolved) resolved = static_cast<char*>(malloc(found.size() + 1));
+  memcpy(resolved, found.c_str(), found.size() + 1);
+  return resolved;
+}
+ssize_t __real_readlink(const char* path, char* buf, size_t len);
+ssize_t __wrap_readlink(const char* path, char* buf, size_t len) {
+  using namespace sim;
+  if (g_premain.active) { bool dir = false; errno = premain_exists(path, &dir) ? EINVAL : ENOENT; return -1; }
+  if (!fs.active || !in_library_scope()) return __real_readlink(path, buf, len);
+  note_api("readlink", path);
+  int err = 0;
+  errno = fs_lookup_for_stat(path, &err) ? EINVAL : err;   // nothing in the simulated tree is a symbolic link
+  return -1;
+}
+char* __real_getcwd(char* buf, size_t size);
+char* __wrap_getcwd(char* buf, size_t size) {
+  using namespace sim;
+  if (!g_premain.active) {
+    if (!fs.active || !in_library_scope()) return __real_getcwd(buf, size);
+    note_api("getcwd", "");
+  }
+  static const char kCwd[] = "/sim/cwd";
+  if (!buf) { buf = static_cast<char*>(malloc(size > sizeof kCwd ? size : sizeof kCwd)); }
+  else if (size < sizeof kCwd) { errno = ERANGE; return nullptr; }
+  memcpy(buf, kCwd, sizeof kCwd);
+  return buf;
+}
+static void unsupported_api(const char* what, const char* path) {
+  sim::HarnessScope hs;
+  if (sim::fs.unsupported_api.empty()) sim::fs.unsupported_api = std::string(what) + "(" + (path ? path : "") + ")";
+}
+int __real_open(const char* path, int flags, ...);
+int __wrap_open(const char* path, int flags, ...) {
+  va_list ap; va_start(ap, flags); int mode = va_arg(ap, int); va_end(ap);
+  if (sim::g_premain.active) { sim::g_premain.unsupported_api = 1; errno = ENOENT; return -1; }
+  if (!sim::fs.active || !sim::in_library_scope()) return __real_open(path, flags, mode);
+  unsupported_api("open", path); errno = ENOENT; return -1;
+}
+int __real_open64(const char* path, int flags, ...);
+int __wrap_open64(const char* path, int flags, ...) {
+  va_list ap; va_start(ap, flags); int mode = va_arg(ap, int); va_end(ap);
+  if (sim::g_premain.active) { sim::g_premain.unsupported_api = 1; errno = ENOENT; return -1; }
+  if (!sim::fs.active || !sim::in_library_scope()) return __real_open64(path, flags, mode);
+  unsupported_api("open64", path); errno = ENOENT; return -1;
+}
+int __real_openat(int dirfd, const char* path, int flags, ...);
+int __wrap_openat(int dirfd, const char* path, int flags, ...) {
+  va_list ap; va_start(ap, flags); int mode = va_arg(ap, int); va_end(ap);
+  if (sim::g_premain.active) { sim::g_premain.unsupported_api = 1; errno = ENOENT; return -1; }
+  if (!sim::fs.active || !sim::in_library_scope()) return __real_openat(dirfd, path, flags, mode);
+  unsupported_api("openat", path); errno = ENOENT; return -1;
+}
+DIR* __real_opendir(const char* path);
+DIR* __wrap_opendir(const char* path) {
+  if (sim::g_premain.active) { sim::g_premain.unsupported_api = 1; errno = ENOENT; return nullptr; }
+  if (!sim::fs.active || !sim::in_library_scope()) return __real_opendir(path);
+  unsupported_api("opendir", path); errno = ENOENT; return nullptr;
 }
 
 // <cctype> under a "foreign" locale.
